@@ -54,6 +54,11 @@ fn call(b: Builder, m: &mut Model, slot: usize, c: usize) -> Builder {
     let mut blob: Vec<u8> = if empty { vec![] } else { (0..(2 + 7 * (c % 1000))).map(|i| marker(i, slot + 50)).collect() };
     // seeds 3000..: contents that look like structure (end-tag images, a tag header, a whole boot information)
     let look = (3000..4000).contains(&c);
+    // seeds 8000..8003: contents that are related across slots (the same text, the same pointer value, an ACPI 1.0
+    // RSDP that is the prefix of the ACPI 2.0 one, both with valid checksums)
+    let related = (8000..8004).contains(&c);
+    let relv = c.saturating_sub(8000);
+    let text = if related { ["same text", "x", "", "same text"][relv].to_string() } else { text };
     const END: [u8; 8] = [0, 0, 0, 0, 8, 0, 0, 0];
     if (4000..4006).contains(&c) {
         // large payloads: totals around 64 KiB, 1 MiB, 16 MiB
@@ -81,7 +86,7 @@ fn call(b: Builder, m: &mut Model, slot: usize, c: usize) -> Builder {
         }
         2 => {
             // realistic modules lie at 16..17 MiB or 1..2 MiB
-            let t = if real { if rv % 2 == 0 { ModuleTag::new(0x100_0000, 0x110_0000, &text) } else { ModuleTag::new(0x10_0000, 0x18_0000, &text) } } else { ModuleTag::new(0x1000 * (s + 1), 0x1000 * (s + 2), &text) };
+            let t = if related { ModuleTag::new(0x100_0000, 0x110_0000, &text) } else if real { if rv % 2 == 0 { ModuleTag::new(0x100_0000, 0x110_0000, &text) } else { ModuleTag::new(0x10_0000, 0x18_0000, &text) } } else { ModuleTag::new(0x1000 * (s + 1), 0x1000 * (s + 2), &text) };
             m.put(slot, supplied(&*t));
             b.add_module(t)
         }
@@ -138,12 +143,12 @@ fn call(b: Builder, m: &mut Model, slot: usize, c: usize) -> Builder {
             b.apm(t)
         }
         10 => {
-            let t = EFISdt32Tag::new(0x7000_0000 + s);
+            let t = EFISdt32Tag::new(if related { 0x7FF0_0000 } else { 0x7000_0000 + s });
             m.put(slot, supplied(&t));
             b.efi32(t)
         }
         11 => {
-            let t = EFISdt64Tag::new(if look { 0x8_0000_0000 } else { 0x1_7000_0000 + s as u64 });
+            let t = EFISdt64Tag::new(if related { 0x7FF0_0000 } else if look { 0x8_0000_0000 } else { 0x1_7000_0000 + s as u64 });
             m.put(slot, supplied(&t));
             b.efi64(t)
         }
@@ -153,12 +158,28 @@ fn call(b: Builder, m: &mut Model, slot: usize, c: usize) -> Builder {
             b.add_smbios(t)
         }
         13 => {
-            let t = RsdpV1Tag::new(s as u8, *b"OEMID1", 0, 0x1234_0000 + s);
+            let t = if related {
+                // revision 0 / 2, checksum byte chosen so that the 20 bytes sum to 0
+                let rev = [0u8, 2, 2, 0][relv];
+                let sum: u32 = b"RSD PTR BOCHS ".iter().map(|&x| x as u32).sum::<u32>() + rev as u32 + [0x00u32, 0x00, 0xFE, 0x07].iter().sum::<u32>();
+                RsdpV1Tag::new((0u32.wrapping_sub(sum) & 0xFF) as u8, *b"BOCHS ", rev, 0x07FE_0000)
+            } else {
+                RsdpV1Tag::new(s as u8, *b"OEMID1", 0, 0x1234_0000 + s)
+            };
             m.put(slot, supplied(&t));
             b.rsdpv1(t)
         }
         14 => {
-            let t = RsdpV2Tag::new(s as u8, *b"OEMID2", 2, 0x1234_0000, 36, 0x5678_0000 + s as u64, 9);
+            let t = if related {
+                let rev = [0u8, 2, 2, 0][relv];
+                let sum: u32 = b"RSD PTR BOCHS ".iter().map(|&x| x as u32).sum::<u32>() + rev as u32 + [0x00u32, 0x00, 0xFE, 0x07].iter().sum::<u32>();
+                let cs = (0u32.wrapping_sub(sum) & 0xFF) as u8;
+                // length 36, XSDT at 0x07FE1000: extended checksum makes all 36 bytes sum to 0
+                let ext_sum: u32 = 36 + 0x00 + 0x10 + 0xFE + 0x07;
+                RsdpV2Tag::new(cs, *b"BOCHS ", rev, 0x07FE_0000, 36, 0x07FE_1000, (0u32.wrapping_sub(ext_sum) & 0xFF) as u8)
+            } else {
+                RsdpV2Tag::new(s as u8, *b"OEMID2", 2, 0x1234_0000, 36, 0x5678_0000 + s as u64, 9)
+            };
             m.put(slot, supplied(&t));
             b.rsdpv2(t)
         }
@@ -179,17 +200,17 @@ fn call(b: Builder, m: &mut Model, slot: usize, c: usize) -> Builder {
             b.efi_bs(t)
         }
         18 => {
-            let t = EFIImageHandle32Tag::new(0x6000_0000 + s);
+            let t = EFIImageHandle32Tag::new(if related { 0x7FF0_0000 } else { 0x6000_0000 + s });
             m.put(slot, supplied(&t));
             b.efi32_ih(t)
         }
         19 => {
-            let t = EFIImageHandle64Tag::new(if look { 0x8_0000_0000 } else { 0x2_6000_0000 + s as u64 });
+            let t = EFIImageHandle64Tag::new(if related { 0x7FF0_0000 } else if look { 0x8_0000_0000 } else { 0x2_6000_0000 + s as u64 });
             m.put(slot, supplied(&t));
             b.efi64_ih(t)
         }
         20 => {
-            let t = ImageLoadPhysAddrTag::new(0x0020_0000 + s);
+            let t = ImageLoadPhysAddrTag::new(if related { 0x100_0000 } else { 0x0020_0000 + s });
             m.put(slot, supplied(&t));
             b.image_load_addr(t)
         }
@@ -447,6 +468,32 @@ fn run(ctx: &mut Ctx) {
                     run_program(ctx, &prog, &|| format!("calls {:?}", prog));
                 });
             }
+        }
+    }
+    // related contents: two tags that say the same thing are still two tags
+    ctx.bound("related_contents", "slots {command line, loader name, module, EFI system table 32 / 64, ACPI 1.0 / 2.0 RSDP, EFI image handle 32 / 64, load base address} with related contents in 4 variants (the same text in all three text kinds; the same pointer value in both widths; an ACPI 1.0 RSDP that is the prefix of the ACPI 2.0 one, checksums valid, revisions 0 / 2; load base = module start): every ordered pair, every pair with a module in between, and all ten together in two orders");
+    {
+        let rel: [usize; 10] = [0, 1, 2, 10, 11, 13, 14, 18, 19, 20];
+        let mut progs: Vec<Vec<(usize, usize)>> = vec![];
+        for v in 8000..8004usize {
+            for &a in &rel {
+                for &b in &rel {
+                    if a != b || REPEATABLE[a] {
+                        progs.push(vec![(a, v), (b, v)]);
+                        progs.push(vec![(a, v), (2, 1), (b, v)]);
+                    }
+                }
+            }
+            progs.push(rel.iter().map(|&x| (x, v)).collect());
+            progs.push(rel.iter().rev().map(|&x| (x, v)).collect());
+        }
+        for prog in progs {
+            let describe = || J::obj().set("part", "related-contents").set("calls", J::Arr(prog.iter().map(|(s, c)| J::from(format!("{}#{}", SLOT_NAMES[*s], c))).collect()));
+            ctx.leaf(describe, |ctx| {
+                ctx.state_direct();
+                ctx.nontrivial();
+                run_program(ctx, &prog, &|| format!("calls {:?}", prog));
+            });
         }
     }
     // realistic contents and relations between tags: what one tag says must not change what happens to another
